@@ -211,7 +211,7 @@ def validate(rep, native, scens, driver_setup=None, symrun=None, natrun=None):
 
 
 def scenario_check(prop, tier, seed, items, evaluate, sig_of, bounds, assumptions, rule, expected_cells=None,
-                   n_validate=None, driver_setup=None, hooks=False, chunksize=8, symrun=None, natrun=None):
+                   n_validate=None, driver_setup=None, hooks=False, chunksize=8, symrun=None, natrun=None, pre_finish=None):
     rep = Report(prop, tier, seed)
     rep.bounds = bounds
     rnd = random.Random(seed)
@@ -229,4 +229,6 @@ def scenario_check(prop, tier, seed, items, evaluate, sig_of, bounds, assumption
         missing = set(map(str, expected_cells)) - set(rep.cells)
         if missing:
             rep.inconclusive.append({'inconclusive': f'vacuity: no path reached cells {sorted(missing)[:6]}', 'item': ''})
+    if pre_finish:
+        pre_finish(rep, native)
     return rep.finish(assumptions=assumptions, rule=rule)
